@@ -595,6 +595,12 @@ func (fx *FuncExec) havocLoop(ps *pathState, li *LoopInfo) {
 			if id, ok := rootSlice(x.X, depth+1); ok {
 				return PtrV{Obj: id}, true
 			}
+			// element of an array held in a variable or field: the whole array is the target
+			if _, isArr := x.X.Type().Underlying().(*types.Pointer); isArr && isAddrExpr(x.X) {
+				if bp, ok := rootLoc(x.X, depth+1); ok {
+					return bp, true
+				}
+			}
 			if bv, ok := rootVal(x.X, depth+1); ok {
 				if bp, ok := bv.(PtrV); ok && bp.Sym == "" && bp.Obj != 0 {
 					return PtrV{Obj: bp.Obj, Path: bp.Path}, true
@@ -1043,8 +1049,53 @@ func (fx *FuncExec) havocLoop(ps *pathState, li *LoopInfo) {
 		}
 		hint := "loop"
 		nv := st.freshVal(cur.Type(), hint, 0)
+		// a slice variable that the loop only re-slices (s = s[a:b]) keeps its backing array: only the
+		// window moves, and the end of its capacity stays where it was
+		if sl, ok := cur.(SliceV); ok && sl.Arr != 0 && len(t.p.Path) == 0 {
+			if a := fx.allocOf(st, t.p); a != nil && onlyResliced(a, li) {
+				off := fx.c.fresh("loop.off", SInt)
+				ln := fx.c.fresh("loop.len", SInt)
+				cp := fx.c.fresh("loop.cap", SInt)
+				st.assume(tAnd(tLe(intLit(0), off), tLe(intLit(0), ln), tLe(ln, cp), tEq(tAdd(off, cp), tAdd(sl.Off, sl.Cap))))
+				nv = SliceV{Arr: sl.Arr, Off: off, Len: ln, Cap: cp, Nil: tFalse, Typ: sl.Typ}
+			}
+		}
 		st.store(t.p, nv)
 	}
+}
+
+// allocOf: the local variable whose cell p points to.
+func (fx *FuncExec) allocOf(st *State, p PtrV) *ssa.Alloc {
+	for v, r := range st.regs {
+		if a, ok := v.(*ssa.Alloc); ok {
+			if rp, ok := r.(PtrV); ok && rp.Sym == "" && rp.Obj == p.Obj && len(rp.Path) == 0 {
+				return a
+			}
+		}
+	}
+	return nil
+}
+
+// onlyResliced: every assignment to the variable inside the loop stores a slice expression over the
+// variable's own current value.
+func onlyResliced(a *ssa.Alloc, li *LoopInfo) bool {
+	n := 0
+	for _, ref := range *a.Referrers() {
+		st, ok := ref.(*ssa.Store)
+		if !ok || st.Addr != ssa.Value(a) || !li.blocks[st.Block()] {
+			continue
+		}
+		n++
+		sl, ok := st.Val.(*ssa.Slice)
+		if !ok {
+			return false
+		}
+		ld, ok := sl.X.(*ssa.UnOp)
+		if !ok || ld.Op != token.MUL || ld.X != ssa.Value(a) {
+			return false
+		}
+	}
+	return n > 0
 }
 
 func isAddrExpr(v ssa.Value) bool {
